@@ -13,11 +13,11 @@ TYPES = ["K", "M"]
 RB = ["NONE", "XZ", "XYZ"]
 
 
-def make_net(env, n_nodes, pb, cap=12):
+def make_net(env, n_nodes, pb, cap=12, names=None):
     from netqasm.sdk.shared_memory import SharedMemoryManager
     SharedMemoryManager.reset_memories()
     env.clock.stopped = False
-    names = ["N%d" % i for i in range(n_nodes)]
+    names = list(names) if names else ["N%d" % i for i in range(n_nodes)]
     if pb:
         import net_pb
         net = net_pb.make_pb_network(env, names, [cap] * n_nodes, [cap] * n_nodes)
@@ -60,16 +60,23 @@ def random_experiment(rng, thorough):
             for (x, k2, i) in rng.sample(cands, min(len(cands), rng.randrange(1, 3))):
                 freed.add((x, k2, i))
                 q["free"].append({"node": x, "req": k2, "pair": i})
-    return {"n_nodes": n_nodes, "reqs": reqs, "pb": rng.random() < 0.25, "sched": rng.randrange(10 ** 6), "coins": [rng.randrange(2) for _ in range(64)],
+    labels = ["Na", "Nb", "Nc"][:n_nodes]
+    if rng.random() < 0.5:
+        rng.shuffle(labels)              # node i is called labels[i]; NetQASM node ids are ranks in the sorted list of names
+    return {"n_nodes": n_nodes, "names": labels, "reqs": reqs, "pb": rng.random() < 0.25, "sched": rng.randrange(10 ** 6), "coins": [rng.randrange(2) for _ in range(64)],
             "basis_seed": rng.randrange(10 ** 6)}
+
+
+def nm(exp, i):
+    return exp["names"][i] if exp.get("names") else "N%d" % i
 
 
 def socket_table(exp):
     """per node: list of (remote name, local socket id, remote socket id), consistent on both ends (well-formed configuration)"""
     socks = {i: [] for i in range(exp["n_nodes"])}
     for q in exp["reqs"]:
-        a = ("N%d" % q["r"], q["ls"], q["rs"])
-        b = ("N%d" % q["c"], q["rs"], q["ls"])
+        a = (nm(exp, q["r"]), q["ls"], q["rs"])
+        b = (nm(exp, q["c"]), q["rs"], q["ls"])
         if a not in socks[q["c"]]:
             socks[q["c"]].append(a)
         if b not in socks[q["r"]]:
@@ -88,7 +95,7 @@ def run_experiment(env, exp):
     socks = socket_table(exp)
     if socks is None:
         return None
-    net, names = make_net(env, exp["n_nodes"], exp["pb"])
+    net, names = make_net(env, exp["n_nodes"], exp["pb"], names=exp.get("names"))
     env.E.random = random.Random(exp["basis_seed"])          # basis choices of measure-directly (random.choices in executioner.py)
     ids = Q.node_ids(names)
     streams = {}
@@ -102,14 +109,14 @@ def run_experiment(env, exp):
             got = {}
             for k, q in my:
                 if q["c"] == node:
-                    e = eprs[socks[node].index(("N%d" % q["r"], q["ls"], q["rs"]))]
+                    e = eprs[socks[node].index((nm(exp, q["r"]), q["ls"], q["rs"]))]
                     if q["tp"] == "K":
                         got[k] = e.create_keep(q["n"])
                     else:
                         EP.NEXT_PROBS[0] = q.get("probs")
                         e.create_measure(q["n"], random_basis_local=RandomBasis[q["rbl"]], random_basis_remote=RandomBasis[q["rbr"]])
                 else:
-                    e = eprs[socks[node].index(("N%d" % q["c"], q["rs"], q["ls"]))]
+                    e = eprs[socks[node].index((nm(exp, q["c"]), q["rs"], q["ls"]))]
                     if q["tp"] == "K":
                         got[k] = e.recv_keep(q["n"])
                     else:
@@ -152,7 +159,7 @@ def run_experiment(env, exp):
             arrs = [r for r in rep if r[0] == "arr" and len(r[2]) == EP.OK_FIELDS * q["n"] and None not in r[2]]
             return EP.ent_infos(arrs[:1], arrs[0][1]) if arrs else None
         ce, re_ = ent(crep), ent(rrep)
-        cid, rid = ids["N%d" % q["c"]], ids["N%d" % q["r"]]
+        cid, rid = ids[nm(exp, q["c"])], ids[nm(exp, q["r"])]
         bad = EP.pairing_problems(ce, re_, q["n"], cid, rid, q["ls"], q["rs"])
         obs = {"req": q, "creator": ce, "receiver": re_, "creator_replies": crep, "receiver_replies": rrep}
         res["requests"].append(obs)
@@ -227,6 +234,134 @@ def run_experiment(env, exp):
     return res
 
 
+def _text_msg(text, app=0):
+    from netqasm.backend.messages import SubroutineMessage
+    from netqasm.lang.parsing.text import parse_text_subroutine
+    return SubroutineMessage(subroutine=parse_text_subroutine("# NETQASM 1.0\n# APPID %d\n%s" % (app, text)))
+
+
+def _create_keep(remote, sock, q, base):
+    return ("array 1 @{b}\nstore {q} @{b}[0]\narray 22 @{b1}\nstore 0 @{b1}[0]\nstore 1 @{b1}[1]\narray 10 @{b2}\nset R0 {r}\nset R1 {s}\nset R2 {b}\n"
+            "set R3 {b1}\nset R4 {b2}\ncreate_epr R0 R1 R2 R3 R4\nwait_all @{b2}[0:10]\n").format(b=base, b1=base + 1, b2=base + 2, q=q, r=remote, s=sock)
+
+
+def _recv_keep(remote, sock, q, base):
+    return ("array 1 @{b}\nstore {q} @{b}[0]\narray 10 @{b1}\nset R0 {r}\nset R1 {s}\nset R2 {b}\nset R3 {b1}\nrecv_epr R0 R1 R2 R3\n"
+            "wait_all @{b1}[0:10]\n").format(b=base, b1=base + 1, q=q, r=remote, s=sock)
+
+
+def occupied_address_experiment(env, variant, pb, order):
+    """hand-written subroutines, several in flight per host (a host may commit subroutines without waiting): the receiver asks for a pair
+    into a virtual address that is still occupied, so the delivery stays pending; meanwhile the same node takes part in another request
+    (variant 0: it creates a pair towards the first creator; 1: towards a third node; 2: it receives a second pair from the first creator on another
+    socket); then the address is freed.  Every pair must come out as an isolated |Phi+> pair between the right addresses.
+    order: node names in configuration order (node ids are ranks in the SORTED list)"""
+    from netqasm.backend.messages import InitNewAppMessage, OpenEPRSocketMessage
+    from netqasm.sdk.shared_memory import SharedMemoryManager
+    SharedMemoryManager.reset_memories()
+    env.clock.stopped = False
+    names = list(order)
+    if pb:
+        import net_pb
+        net = net_pb.make_pb_network(env, names, [12] * 3, [12] * 3)
+    else:
+        net = N.make_network(env, names, [12] * 3, [12] * 3)
+    Q.make_hosts(env, net, pb_local=pb)
+    ids = Q.node_ids(names)
+    A, Bn, C = 0, 1, 2                       # indices into names: first creator, the receiver with the occupied address, third node
+    idA, idB, idC = ids[names[A]], ids[names[Bn]], ids[names[C]]
+    P = []
+
+    def pump(pend, what, rounds=400):
+        for _ in range(rounds):
+            if pb:
+                import net_pb
+                net_pb.flush(net)
+            if all(p.done for p in pend):
+                return True
+            calls = env.clock.getDelayedCalls()
+            if calls:
+                env.clock.advance(max(min(c.getTime() for c in calls) - env.clock.seconds(), 0.0) + 1e-6)
+        if not all(p.done for p in pend):
+            P.append({"kind": "hang", "what": "occupied-address experiment (variant %d): %s did not complete" % (variant, what)})
+            return False
+        return True
+
+    def go(node, msg, what):
+        p = EP.start(net.hosts[node], msg)
+        return p if pump([p], what) else None
+
+    Q.script_coins(env, [0, 1, 1, 0] * 16, len(env.tap))
+    for node in (A, Bn, C):
+        if go(node, InitNewAppMessage(app_id=0, max_qubits=10), "InitNewApp") is None:
+            return P
+    socks = [(A, 0, idB, 0), (Bn, 0, idA, 0), (A, 1, idB, 1), (Bn, 1, idA, 1), (Bn, 2, idC, 0), (C, 0, idB, 2)]
+    for node, s_, rid, rs in socks:
+        if go(node, OpenEPRSocketMessage(app_id=0, epr_socket_id=s_, remote_node_id=rid, remote_epr_socket_id=rs, min_fidelity=100), "OpenEPRSocket") is None:
+            return P
+    if go(Bn, _text_msg("set Q0 0\nqalloc Q0\ninit Q0\nh Q0\n"), "local allocation") is None:
+        return P
+    pend_recv = EP.start(net.hosts[Bn], _text_msg(_recv_keep(idA, 0, 0, 5)))          # into the occupied address 0
+    if go(A, _text_msg(_create_keep(idB, 0, 0, 5)), "creation towards the occupied address") is None:
+        return P
+    for _ in range(12):                      # let the receiver's poll find the half (its delivery must now be pending)
+        if pb:
+            import net_pb
+            net_pb.flush(net)
+        calls = env.clock.getDelayedCalls()
+        if calls:
+            env.clock.advance(max(min(c.getTime() for c in calls) - env.clock.seconds(), 0.0) + 1e-6)
+    if pend_recv.done:
+        P.append({"kind": "pending", "what": "occupied-address experiment: the delivery into an occupied virtual address completed before the address was freed"})
+        return P
+    pairs = [((A, 0), (Bn, 0))]
+    if variant == 0:
+        r2 = EP.start(net.hosts[A], _text_msg(_recv_keep(idB, 1, 1, 8)))
+        c2 = EP.start(net.hosts[Bn], _text_msg(_create_keep(idA, 1, 1, 7)))
+        ok = pump([r2, c2], "the request in the opposite direction")
+        pairs.append(((Bn, 1), (A, 1)))
+    elif variant == 1:
+        r2 = EP.start(net.hosts[C], _text_msg(_recv_keep(idB, 0, 1, 8)))
+        c2 = EP.start(net.hosts[Bn], _text_msg(_create_keep(idC, 2, 1, 7)))
+        ok = pump([r2, c2], "the request towards a third node")
+        pairs.append(((Bn, 1), (C, 1)))
+    else:
+        r2 = EP.start(net.hosts[Bn], _text_msg(_recv_keep(idA, 1, 1, 8)))
+        c2 = EP.start(net.hosts[A], _text_msg(_create_keep(idB, 1, 1, 7)))
+        ok = pump([r2, c2], "the second request on another socket")
+        pairs.append(((A, 1), (Bn, 1)))
+    if not ok:
+        return P
+    if go(Bn, _text_msg("set Q0 0\nqfree Q0\n"), "freeing the occupied address") is None:
+        return P
+    if not pump([pend_recv], "the pending delivery after the address was freed"):
+        return P
+    Q.script_coins(env, None, 0)
+
+    def virt(node, addr):
+        h = net.hosts[node]
+        try:
+            pos = h.executor._get_position(app_id=0, address=addr)
+            return N.resolve(net, h.factory.qubitList[pos].virt)
+        except Exception as e:
+            P.append({"kind": "delivery", "what": "occupied-address experiment (variant %d): node %s has no qubit at virtual address %d (%s)" % (variant, names[node], addr, type(e).__name__)})
+            return None
+    seen = {}
+    for (n1, a1), (n2, a2) in pairs:
+        q1, q2 = virt(n1, a1), virt(n2, a2)
+        if q1 is None or q2 is None:
+            continue
+        for key, q in (((n1, a1), q1), ((n2, a2), q2)):
+            if id(q) in seen and seen[id(q)] != key:
+                P.append({"kind": "aliasing", "what": "occupied-address experiment (variant %d): virtual addresses %r and %r are the same qubit" % (variant, seen[id(q)], key)})
+            seen[id(q)] = key
+        rho = EP.pair_state(net, q1, q2)
+        if rho is None or not O_close(rho, EP.PHI):
+            P.append({"kind": "state", "what": "occupied-address experiment (variant %d, names %r): the qubits at %s@%d and %s@%d are not an isolated |Phi+> pair"
+                      % (variant, names, names[n1], a1, names[n2], a2)})
+    return P
+
+
 def O_close(a, b):
     import numpy as np
     return a.shape == b.shape and np.allclose(a, b, atol=1e-8)
@@ -264,7 +399,8 @@ def run(ctx, only_extra=False):
     ctx.rule = ("random experiments: 2-3 nodes, 1-4 requests (create-and-keep / measure-directly, 1-3 pairs, random basis sets NONE/XZ/XYZ per side with random 8-bit basis-choice weights (written into the request array; the SDK leaves them 0), 1-2 sockets "
                 "per node pair, both directions on one socket pair), random scheduler seed, 25% over real PB; per request the pairing predicate on both "
                 "ReturnArray contents, numpy check that the two delivered qubits are an isolated |Phi+> register, outcome possibility for measure-directly, "
-                "sequence numbers per socket pair, halves survive the creator's stop, everything gone after all stops; "
+                "sequence numbers per socket pair, halves survive the creator's stop, everything gone after all stops; configuration order of the nodes differs from the "
+                "alphabetical order in half of the experiments; hand-written subroutines with several in flight per host: delivery into an occupied virtual address; "
                 "distinct = distinct (request list, scheduler seed, coins)")
     common.check_properties_file(ctx)
     logging.disable(logging.CRITICAL)
@@ -301,6 +437,17 @@ def run(ctx, only_extra=False):
             results.append(r)
             if any(p["kind"] in ("hang", "escaped") for p in r["problems"]):
                 break               # a host that never completes: every further experiment would only burn the time budget
+    occ = []
+    with c09.quiet():
+        for variant in (0, 1, 2):
+            for order, pb in ((["Na", "Nb", "Nc"], False), (["Nb", "Nc", "Na"], False), (["Nc", "Na", "Nb"], True)):
+                if hung:
+                    break
+                ps = occupied_address_experiment(env, variant, pb, order)
+                ctx.count("occupied_address_experiments")
+                ctx.case(("occupied-address", variant, tuple(order), pb), nontrivial=True)
+                if ps:
+                    occ.append((variant, order, pb, ps))
     logging.disable(logging.NOTSET)
     for r in results:
         e = r["exp"]
@@ -358,6 +505,17 @@ def run(ctx, only_extra=False):
                 found = True
             else:
                 ctx.broken_explained_by_known = True
+    ctx.obligation("oracle: a delivery into an occupied virtual address stays pending until the address is freed; requests handled meanwhile and the pending one "
+                   "all end as isolated |Phi+> pairs at the right addresses (3 variants x 3 configuration orders)", not occ,
+                   occ[0][3][0]["what"] if occ else "")
+    for variant, order, pb, ps in occ[:1]:
+        key = "C08:occupied-address-" + ps[0]["kind"]
+        seen.add(key)
+        if ctx.report(key, ps[0]["what"], {"experiment": "occupied_address_experiment", "variant": variant, "configuration_order": order, "over_real_PB": pb,
+                                           "problems": ps}, found_input=True):
+            found = True
+        else:
+            ctx.broken_explained_by_known = True
     if not (seen - {"C08:seq-collision-opposite-directions"}):
         ctx.obligation("oracle: pairing, |Phi+> state, measure-directly outcomes, per-direction sequence numbers, halves survive the creator's stop", True)
     # (the end-to-end half of C12 runs under ./check C12, see props/c12.py)
